@@ -500,7 +500,13 @@ def run_family(res, name, model, exe, lines, oracle, describe, max_report=3):
         m = out_m[i] if i < len(out_m) else "<missing>"
         want = oracle(l)
         if c != want:
-            res.violation("%s: %s -> real code says `%s`, the property demands `%s`" % (name, describe(l), c[:200], want[:200]),
+            cs, ws = c, want
+            if name == "env":   # show only the settings that differ
+                dc, dw = dict(x.split("=") for x in c.split() if "=" in x), dict(x.split("=") for x in want.split() if "=" in x)
+                ks = [k for k in sorted(set(dc) | set(dw)) if dc.get(k) != dw.get(k)]
+                cs = " ".join("%s=%s" % (k, dc.get(k)) for k in ks)
+                ws = " ".join("%s=%s" % (k, dw.get(k)) for k in ks)
+            res.violation("%s: %s -> real code says `%s`, the property demands `%s`" % (name, describe(l), cs[:200], ws[:200]),
                           {"family": name, "lines": [l], "impl": c[:2000], "oracle": want[:2000], "model": m[:2000],
                            "correspondence": "T2 %s (harness vs Lean model vs oracle)" % name})
             reported += 1
@@ -517,7 +523,8 @@ def run_family(res, name, model, exe, lines, oracle, describe, max_report=3):
 def describe_line(l):
     w = l.split()
     if w[0] == "atoi":
-        return "ABTU_ato%s(%r)" % (w[1], unhx(w[2]))
+        return "%s(%r)" % ({"int": "ABTU_atoi", "u32": "ABTU_atoui32", "u64": "ABTU_atoui64", "sz": "ABTU_atosz"}.get(w[1], w[1]),
+                           unhx(w[2]))
     if w[0] in ("int", "pint"):
         return "consume_%s(%r)" % (w[0], unhx(w[1]))
     if w[0] == "sym":
